@@ -24,7 +24,7 @@ pub fn run_case(ctx: &mut Ctx, case: &Value) {
     }
     // structure: payload exactly as the spec places the digests (each once, at the node's position);
     // digests are recomputed by the driver's own SHA-2 from the disclosure strings
-    if !ic.marks.is_empty() && ic.payload.get("_sd_alg") != Some(&json!("sha-256")) {
+    if !ic.marks.is_empty() && ic.payload.get("_sd_alg").is_none() {
         ctx.report.diff("property", "Issuer::encode", "Issuer::encode:_sd_alg", case, json!({"payload": ic.payload}));
     }
     let real_payload = real::canon_sd(&strip_issuer_members(&ic.payload, &ic.claims));
@@ -67,7 +67,7 @@ pub fn run_case(ctx: &mut Ctx, case: &Value) {
     let expected = projects(ctx, &ic, &shown);
     for (i, s) in subsets.iter().enumerate() {
         let list: Vec<String> = s.iter().map(|id| ic.disc_of(*id)).collect();
-        let resp = restore_op(ctx, "sha-256", &ic.payload, &list);
+        let resp = restore_op(ctx, &ic.sd_alg, &ic.payload, &list);
         ctx.report.bump("ref-verify-runs");
         if resp["ref"].get("ok") != Some(&expected[i]) {
             let mut c2 = case.clone();
